@@ -431,27 +431,76 @@ def _sub_state(st, pc):
     return s
 
 
-@model('slice::Iter::next', r'^<std::slice::Iter<.+> as Iterator>::next$')
+def it_src(it):
+    while it.kind != 'src':
+        it = it.a
+    return it
+
+
+def it_with_src(it, src):
+    if it.kind == 'src':
+        return src
+    return It(it.kind, it_with_src(it.a, src), it.b)
+
+
+def it_elems_slots(eng, it, st, where, pc):
+    """like it_elems for chains in which every produced element stems from exactly one source slot: [(guard, value, slot)]"""
+    if it.kind == 'src':
+        v = it.a
+        return [(AND(z3.ULE(it.b, i), z3.UGT(v.len, i)), v.slots[i], i) for i in range(v.ty.cap) if v.slots[i] is not None]
+    inner = it_elems_slots(eng, it.a, st, where, pc)
+    out = []
+    for g, x, i in inner:
+        st2 = _sub_state(st, AND(pc, g))
+        if it.kind == 'map':
+            out.append((g, eng.call_callable(it.b, [x], st2, where), i))
+        elif it.kind == 'filter':
+            out.append((AND(g, eng.call_callable(it.b, [x], st2, where).t), x, i))
+        elif it.kind == 'filter_map':
+            r = eng.call_callable(it.b, [x], st2, where)
+            out.append((AND(g, is_variant(r, 'Some')), payload(r, 'Some')[0], i))
+        elif it.kind == 'flatten' and isinstance(x, En):
+            out.append((AND(g, is_variant(x, 'Some')), payload(x, 'Some')[0], i))
+        else:
+            raise Unsupported('next() through %s over %r' % (it.kind, x))
+    return out
+
+
+@model('Iterator::next', r'^<(?:std::slice::Iter<.+>|std::vec::IntoIter<.+>|Flatten<.+>|Filter<.+>|std::iter::Map<.+>|FilterMap<.+>|std::iter::Flatten<.+>|std::iter::Filter<.+>) as Iterator>::next$')
 def m_iter_next(eng, m, args, dest_ts, st, where):
     r = args[0]
     it = eng.read_ref(st, r)
-    if it.kind != 'src':
-        raise Unsupported('next() on adaptor ' + it.kind)
-    v, idx = it.a, it.b
     oty = eng.ty(dest_ts)
-    has = z3.ULT(idx, v.len)
-    elem = None
-    for i in range(v.ty.cap - 1, -1, -1):
-        if v.slots[i] is None:
-            continue
-        elem = v.slots[i] if elem is None else ite(idx == i, v.slots[i], elem)
-    if elem is None:
-        res = mk_variant(oty, 'None')
-    else:
-        res = ite(has, mk_variant(oty, 'Some', [elem]), mk_variant(oty, 'None'))
-    eng.write_ref(st, r, lambda old: It('src', v, z3.simplify(z3.If(has, idx + 1, idx))))
-    res = simp(res)
-    return res
+    if it.kind == 'src':
+        v, idx = it.a, it.b
+        has = z3.ULT(idx, v.len)
+        elem = None
+        for i in range(v.ty.cap - 1, -1, -1):
+            if v.slots[i] is None:
+                continue
+            elem = v.slots[i] if elem is None else ite(idx == i, v.slots[i], elem)
+        if elem is None:
+            res = mk_variant(oty, 'None')
+        else:
+            res = ite(has, mk_variant(oty, 'Some', [elem]), mk_variant(oty, 'None'))
+        eng.write_ref(st, r, lambda old: It('src', v, z3.simplify(z3.If(has, idx + 1, idx))))
+        return simp(res)
+    # adaptor chain: the first enabled element; the source cursor moves just past the slot it came from
+    src = it_src(it)
+    elems = it_elems_slots(eng, it, st, where, st.pc)
+    res = mk_variant(oty, 'None')
+    newidx = src.a.len                                  # exhausted: cursor at the end
+    taken = z3.BoolVal(False)
+    for g, x, i in reversed(elems):
+        res = ite(g, mk_variant(oty, 'Some', [x]), res)
+        newidx = z3.If(g, bv(i + 1, 64), newidx)
+    eng.write_ref(st, r, lambda old: it_with_src(it, It('src', src.a, z3.simplify(newidx))))
+    return simp(res)
+
+
+@model('IntoIterator for iterators', r'^<(?:Flatten<.+>|Filter<.+>|std::iter::Map<.+>|FilterMap<.+>|std::vec::IntoIter<.+>) as IntoIterator>::into_iter$')
+def m_iter_identity(eng, m, args, dest_ts, st, where):
+    return deref(eng, st, args[0])
 
 
 @model('Iterator::fold', r'^<.+ as Iterator>::fold::<.*>$')
